@@ -270,7 +270,17 @@ def run(ctx):
         ctx.instance(R)
         c = repo.cls(clsname)
         f = ctx.anchor("%s.validate" % clsname, c.find_method(meth))
-        out = eval_function(repo, f, [[]], hooks=hooks)
+
+        class SelfHooks(TagHooks):
+            # the receiver is modelled by a concrete empty list: its other
+            # methods are those of the class under analysis
+            def method(self, ev, base, name, args, kwargs, node, c=c):
+                if base == [] and isinstance(base, list):
+                    m = c.find_method(name)
+                    if m is not None:
+                        return ev.inline(m, [base] + list(args), kwargs)
+                return super().method(ev, base, name, args, kwargs, node)
+        out = eval_function(repo, f, [[]], hooks=SelfHooks(repo))
         ok = out[0] == "raise" and is_library_error(repo, f.module, out[1])
         ctx.oblige(ok)
         if not ok:
@@ -309,6 +319,38 @@ def run(ctx):
                 "%s.decode can return %s, which encode of the same datatype "
                 "rejects with TypeError (the tag is written as '# INVALID')"
                 % (modname, ", ".join(rejected)))
+    ctx.exhaustive[R] = True
+
+    # ------------------------------------------------------------------
+    R = "C20.encode_validate_types"
+    ctx.rule(R, "for each tag datatype: a value class the encoder accepts "
+             "(so the tag can be written) passes the type gate of "
+             "validate_decoded, or is refused there with a gfapy error -- "
+             "never with a foreign exception", floor=12)
+    for letter, modname in spec.TAG_DATATYPES.items():
+        m = fm[letter]
+        enc = codec.module_func(repo, m, "encode")
+        vd = codec.module_func(repo, m, "validate_decoded")
+        # (a str is validated as encoded text by Field._validate_gfa_field,
+        # never by validate_decoded)
+        for t in ("int", "float", "list", "dict", "NumericArray",
+                  "ByteArray", "Placeholder", "bool", "NoneType"):
+            v = codec.sample_value(repo, t)
+            if codec.gate_outcome(repo, enc, v) != "accept":
+                continue
+            ctx.instance(R)
+            got = codec.gate_outcome(repo, vd, v)
+            if got is None:
+                ctx.error("%s %s.validate_decoded(%s): the evaluator cannot "
+                          "follow it" % (R, modname, t))
+                continue
+            ok = not got.startswith("foreign:")
+            ctx.oblige(ok)
+            if not ok:
+                ctx.violation(R, vd.short, "datatype=%s,class=%s" % (letter, t),
+                              "%s.encode accepts a %s, but validate_decoded "
+                              "of the same datatype fails on it with %s" % (
+                                  modname, t, got[8:]))
     ctx.exhaustive[R] = True
 
     # ------------------------------------------------------------------
